@@ -16,6 +16,10 @@ func main() {
 	out := flag.String("out", "", "summary JSON path")
 	list := flag.Bool("list", false, "list streams")
 	selftest := flag.String("selftest", "", "internal: run one isolated case in this process")
+	worker := flag.Bool("worker", false, "internal: generate cases in this process")
+	skip := flag.String("skip", "", "internal: guarded items to skip")
+	progress := flag.String("progress", "", "internal: progress file")
+	casesOut := flag.String("cases", "", "internal: cases output")
 	flag.Parse()
 	if *selftest == "dynamic-lazy" {
 		selftestDynamicLazy()
@@ -36,6 +40,10 @@ func main() {
 	if !ok {
 		fmt.Fprintf(os.Stderr, "unknown stream %q\n", *stream)
 		os.Exit(2)
+	}
+	if *worker {
+		workerMain(s, *seed, *n, *thorough, *skip, *progress, *casesOut)
+		return
 	}
 	sum, err := runStream(s, *model, *seed, *n, *thorough, nil)
 	if err != nil {
